@@ -580,7 +580,9 @@ func (ch *channel) Reject(reason RejectionReason, message string) error {
 	// removing it from chanList is sufficient for GC. Calling close()
 	// would race with the mux loop goroutine (handlePacket or dropAll),
 	// causing a panic from closing an already-closed channel.
-	ch.mux.chanList.remove(ch.localId)
+	// If the peer has already closed this channel, its ID may have been
+	// reused by a newer channel, which must stay in the list.
+	ch.mux.chanList.removeChannel(ch)
 
 	return err
 }
